@@ -54,6 +54,8 @@ def program(spec: EnumSpec, pname, tier):
     spec = copy.deepcopy(spec)
     spec.derives = ["EnumCount", "EnumIter", "VariantNames", "VariantArray", "AsRefStr"]
     spec.std_derives = ["Debug", "Clone", "Copy", "PartialEq"]
+    if len(spec.variants) == 1 and not spec.repr:
+        spec.repr = "u8"      # Kani 0.68 ICEs on a constant slice of a zero-sized (single-variant) enum
     E = spec.ty()
     nd_ = len(spec.variants)
     en = [i for i, v in enumerate(spec.variants) if not v.disabled]
